@@ -81,7 +81,7 @@ CLAIMED = {
         "lines (a bad line never stops later ones). Tie: the same generated lines (log lines, <=3-edit mutants, regex-generated "
         "payloads, chatter) through the real _frame_read and the model (frame text, rssi, src/dst, lifespan, outcome class); the "
         "same byte streams x partitions through the real _read_ready and the model. Oracle: exception classes leaving "
-        "Packet.from_file/from_port/from_dict and Message(pkt), every partition vs a single read, log files with bad lines through a gateway.",
+        "Packet.from_file/from_port/from_dict and Message(pkt), every partition vs a single read, log files with bad lines through a gateway; the last stage of the live path -- a real PortProtocol bound to a known gateway, strangers' gateways in the history, over a process lifetime that crosses one or two midnights: nothing escapes pkt_received and what is handed on does not depend on the date.",
         "Trusted: Coq kernel, translator (regex/table regeneration), harness. Modelled not verified: str.split fields = fixed columns "
         "after the regex matched; datetime.fromisoformat (its outcome is an input); the 109 payload parsers behind Message(pkt) are "
         "not modelled -- their exception fence is exercised by the oracle only; non-ASCII input only by the oracle.",
@@ -114,7 +114,7 @@ CLAIMED = {
         "checked by the oracle; 'within the deadline' is per-step (armed / wakes / answers), not a run-level liveness theorem. Tie: ~100 (thorough 400+) generated schedules + 14 singled-out ones "
         "run on the real PortProtocol and on the model; traces (write times, answers with outcome class and packet, loop exceptions, "
         "final state, queue) must be EQUAL. Oracle: one answer per call, answered by the deadline, result is own echo/reply, error class "
-        "inside the ProtocolError family.",
+        "inside the ProtocolError family; every other scenario's callers go through the gateway-level entry (Engine.async_send_cmd) around the same protocol; a fifth of the scenarios cancel one caller from outside.",
         "Trusted: Coq kernel, translator (FSM constants), harness (virtual-time loop = CPython's own _run_once with a clock-advancing selector, in-memory transport). Modelled not verified: asyncio semantics as assumed by the mini loop (time stands still within an iteration unless an explicit Stall event -- a callback that takes wall time -- moves it, in the model and on the virtual loop alike); threading.Lock, GC timing of never-retrieved task exceptions, the 0418 null-reply special case, the impersonation alert of PortProtocol.send_cmd. Liveness is only 'a wake-up is armed / a wake-up answers' -- that due timers run is the event loop's job.",
         "6 (C07-C09)",
     ),
@@ -134,11 +134,13 @@ CLAIMED = {
     ),
     "C09": (
         "Coq refutation witness for the internal assertion (coincident timers) + the counter invariant holding across crashes + caller-answer lemma + trace-equality correspondence + schedule oracle with a follow-up probe send",
-        "3 theorems in coq/props/C09.v: the sender's own consistency check DOES trip (witness: echo timer and caller timeout in one loop "
+        "5 theorems in coq/props/C09.v: the sender's own consistency check DOES trip (witness: echo timer and caller timeout in one loop "
         "iteration, timer first) -- KNOWN; the counter invariant holds in every reachable world, crashed or not; a woken caller is always "
-        "answered. PARTIAL: 'quiescent => idle, nothing pending' and 'a fresh command succeeds afterwards' are decided by the oracle on "
+        "answered; a caller cancelled from OUTSIDE (an outer wait_for such as the discovery poller's, a shutdown: the Cancel event of the model) has its future cancelled and its wake-up scheduled, is answered with the cancellation, "
+        "and neither step touches the state machine (C09_cancel_schedules_wake, C09_cancelled_caller_answered) -- so a command in flight is then cleared by its expiry timer alone, which the correspondence and the oracle watch on generated schedules with such cancels; "
+        "a delayed write that fails fails only the command still in flight (fail_write; the code's guard is fix f67cb97). PARTIAL: 'quiescent => idle, nothing pending' and 'a fresh command succeeds afterwards' are decided by the oracle on "
         "the implementation after every generated episode (final state, pending queue entries, loop exceptions, a probe command to a "
-        "responsive device), not by theorems. Four causes of tripped assertions / inconsistent final state are recorded as KNOWN findings.",
+        "responsive device), not by theorems. Four causes of tripped assertions are recorded as KNOWN findings (three fixed symptoms of a fifth are listed as fixed).",
         "Trusted: Coq kernel, translator (FSM constants), harness (virtual-time loop = CPython's own _run_once with a clock-advancing selector, in-memory transport). Modelled not verified: asyncio semantics as assumed by the mini loop (time stands still within an iteration unless an explicit Stall event -- a callback that takes wall time -- moves it, in the model and on the virtual loop alike); threading.Lock, GC timing of never-retrieved task exceptions, the 0418 null-reply special case, the impersonation alert of PortProtocol.send_cmd. Liveness is only 'a wake-up is armed / a wake-up answers' -- that due timers run is the event loop's job.",
         "6 (C07-C09)",
     ),
@@ -193,7 +195,7 @@ CLAIMED = {
         "that zlib's checksum rejects a mixed set); an UNDISTURBED fetch (the loop of _get_schedule against a controller holding one "
         "version) ends with that version within 2*total exchanges from ANY stale payload set, so nothing a failed, abandoned or "
         "overtaken transfer leaves behind can stop a later one; the pre-repair lock leak is the refuted witness. PARTIAL: 'always ends' "
-        "for DISTURBED transfers rests on the caller's timeout (asyncio.wait_for), which is not in the model -- decided by the oracle. "
+        "for DISTURBED transfers rests on the caller's timeout (asyncio.wait_for), which is not in the model -- decided by the oracle; a WAITER that gives up while another zone's transfer holds the lock is oracle-only too (concurrent fetches and writes of three zones, the middle one abandoned while waiting: at every fragment exchange the lock is held by that fragment's zone). "
         "Tie: vfeed / fetch of the model are compared with the real _update_payload_set / _get_schedule on fragments of 5-7 versions "
         "of one zone's schedule (same and different fragment counts, one-fragment sets; slots, assembled version, number of exchanges). Oracle: a replay gateway's real zones, gwy.async_send_cmd "
         "replaced by a scripted controller (change counter, per-zone fragment sets), ONE fault (raise / never answer / schedule changed "
